@@ -309,7 +309,7 @@ func AsBLSPubkey(v View, err error) (BLSPubkey, error) {
 	var out BLSPubkey
 	buf := bytes.NewBuffer(out[:0])
 	if err := pub.Serialize(codec.NewEncodingWriter(buf)); err != nil {
-		return BLSPubkey{}, nil
+		return BLSPubkey{}, err
 	}
 	copy(out[:], buf.Bytes())
 	return out, nil
@@ -331,7 +331,7 @@ func AsBLSSignature(v View, err error) (BLSSignature, error) {
 	var out BLSSignature
 	buf := bytes.NewBuffer(out[:0])
 	if err := pub.Serialize(codec.NewEncodingWriter(buf)); err != nil {
-		return BLSSignature{}, nil
+		return BLSSignature{}, err
 	}
 	copy(out[:], buf.Bytes())
 	return out, nil
